@@ -8,8 +8,8 @@
     untagged FETCH response as (item name, value) pairs; [tokb t] says that
     [t] is exactly one token for that client. *)
 From Coq Require Import String Ascii List Bool Arith NArith.
-From Raven Require Import Base.GoStr Spec.Grammar Model.Respond
-     Proof.Grammar Proof.RespondTok Proof.RespondAsm Proof.RespondProps.
+From Raven Require Import Base.GoStr Spec.Grammar Model.Respond Model.RespondFetch
+     Proof.Grammar Proof.RespondTok Proof.RespondAsm Proof.RespondProps Proof.RespondEnv.
 Import ListNotations.
 
 (** QuoteOrNIL: for every string without CR/LF the result is one well-formed
@@ -110,6 +110,72 @@ Theorem c13_refuted_name_backslash :
   /\ wf_stream (send (list_line (S_ "LIST") (S_ "\Unmarked") (S_ "c\d"))) = false.
 Proof. exact refuted_name_backslash. Qed.
 Print Assumptions c13_refuted_name_backslash.
+
+(** BuildEnvelope: for EVERY raw message whose ten envelope header values carry
+    no bare CR ([classify_headers = None]; LF cannot occur, extractHeader
+    splits on it), when parseAddressList returns (C12 owns the panic), the
+    ENVELOPE value is one well-formed token with exactly ten fields, each of
+    them one token. *)
+Theorem c13_envelope_wf : forall raw v : str,
+  envelope_value raw = Some v -> classify_headers raw = None ->
+  tokb v = true /\ exists fs, length fs = 10 /\ Forall (fun t => tokb t = true) fs
+                              /\ tokens (S (length v)) (skipn 1 v) = Some (fs, [RP]).
+Proof. exact envelope_wf. Qed.
+Print Assumptions c13_envelope_wf.
+
+(** parseAddressList alone, for every CR/LF-free header value. *)
+Theorem c13_address_list_wf : forall a r : str,
+  clean a = true -> parse_address_list a = Some r -> tokp r.
+Proof. exact parse_address_list_tok. Qed.
+Print Assumptions c13_address_list_wf.
+
+(** Confirmed: QuoteOrNIL does not handle CR; "Subject: a<CR>b" reaches the
+    ENVELOPE quoted string. *)
+Theorem c13_refuted_bare_cr_header :
+  classify_headers w_cr_msg = Some bare_cr_header
+  /\ match envelope_value w_cr_msg with
+     | Some v => wf_stream (send (fetch_line 1 [Inline (S_ "ENVELOPE") v])) = false
+     | None => False
+     end.
+Proof. exact refuted_bare_cr. Qed.
+Print Assumptions c13_refuted_bare_cr_header.
+
+(** Requested items that the substring recognition does not answer under
+    their own name ([unanswered req cls]: the request has the shape [cls] and
+    the model's contributions for it miss a requested name). *)
+Theorem c13_refuted_item_suppressed_body :
+  unanswered [I_Simple (S_ "BODY"); I_Sec true (S_Part (S_ "1") false) None] item_suppressed.
+Proof. exact refuted_item_suppressed_body. Qed.
+Print Assumptions c13_refuted_item_suppressed_body.
+
+Theorem c13_refuted_item_suppressed_rfc822 :
+  unanswered [I_Simple (S_ "RFC822"); I_Simple (S_ "RFC822.SIZE")] item_suppressed.
+Proof. exact refuted_item_suppressed_rfc822. Qed.
+Print Assumptions c13_refuted_item_suppressed_rfc822.
+
+Theorem c13_refuted_item_suppressed_header :
+  unanswered [I_Sec false S_Header None; I_Sec false (S_Fields [S_ "TO"]) None] item_suppressed.
+Proof. exact refuted_item_suppressed_header. Qed.
+Print Assumptions c13_refuted_item_suppressed_header.
+
+Theorem c13_refuted_rfc822_renamed : unanswered [I_Simple (S_ "RFC822")] rfc822_renamed.
+Proof. exact refuted_rfc822_renamed. Qed.
+Print Assumptions c13_refuted_rfc822_renamed.
+
+Theorem c13_refuted_partial_range : unanswered [I_Sec false S_Text (Some (0, 5))] partial_range.
+Proof. exact refuted_partial_range. Qed.
+Print Assumptions c13_refuted_partial_range.
+
+(** a request of none of these shapes, answered item by item by the model *)
+Example c13_answered_example :
+  let req := [I_Simple (S_ "UID"); I_Simple (S_ "FLAGS"); I_Simple (S_ "ENVELOPE");
+              I_Sec true (S_Fields [S_ "Subject"; S_ "to"]) None] in
+  classify_req req = None
+  /\ match fetch_plan (fetch_items (render_req req)) w_env with
+     | Some plan => answered req plan = true /\ classify_plan plan = None /\ forallb out_okb plan = true
+     | None => False
+     end.
+Proof. exact answered_example. Qed.
 
 (** non-vacuity of the hypotheses of [c13_fetch_assembly_ok] *)
 Example c13_assembly_example :
